@@ -28,3 +28,122 @@ def _lp(c):
     lp.invariant("self.file.cur >= 0", "partition_cnt >= 0")
     lp.measure("self.file_size - self.file.cur")
     lp.modifies("self.file.cur").modifies("partitions", ("list", "opaque"))
+
+
+# PartitionAdapter._parse: the part of the assumption above that is the repository's own code - a partition whose header declares no
+# sectors (size <= 0: the scan would not move on) is REJECTED, and a name outside the AKAI character set surfaces as ConstructError,
+# the class _load_partitions handles; nothing else is let out.
+@contract("construct:PartitionStruct._parse#abstract", abstract=True, assumed=True,
+          note="the declared partition struct: header (any size word), volume table, SAT; fails with ConstructError or - from the name adapters - InvalidCharacter")
+def _ps_parse(c):
+    c.param("stream", ("drop",))
+    c.param("context", ("drop",))
+    c.param("path", ("drop",))
+    c.returns(("rec", "PartitionContainer", {"header": ("rec", "PartitionHeader", {"size": "int"})}))
+    c.raises("ConstructError", "True")
+    c.raises("InvalidCharacter", "True")
+    c.modifies()
+
+
+@contract("smpl_extract.util.constructs:ElementAdapter._decode#abstract", abstract=True, assumed=True, note="builds the element from the container (pure here)")
+def _ea_decode(c):
+    c.param("obj", ("drop",))
+    c.param("context", ("drop",))
+    c.param("path", ("drop",))
+    c.returns(("obj", "PartitionToken", {}))
+    c.modifies()
+
+
+@contract("smpl_extract.akai.partition:PartitionAdapter._parse", props=["C13", "C14", "C15"])
+def _pa_parse(c):
+    c.self_obj(("self", "smpl_extract.akai.partition:PartitionAdapter", {"subcon": ("drop",)}))
+    c.param("stream", ("drop",))
+    c.param("context", ("drop",))
+    c.param("path", ("drop",))
+    c.abstract_calls = {"self.subcon._parse": "construct:PartitionStruct._parse#abstract", "self._decode": "smpl_extract.util.constructs:ElementAdapter._decode#abstract"}
+    c.raises("ConstructError")
+    c.ensures("partition_container.header.size > 0", "only-a-partition-that-declares-at-least-one-sector-is-accepted")
+    c.modifies()
+
+
+# ================================================================================================== C01: the volumes of one partition
+# VolumesAdapter._decode_element: one Volume per ACTIVE entry of the partition's volume table, in table order, each under the entry's
+# name below the partition's path, and each reading its file table from the sector chain that starts at ITS OWN start sector of THIS
+# partition's allocation table.  Inactive entries are skipped and cost nothing.  Proved for volume tables of 1, 2 and 3 entries.
+_VA = "smpl_extract.akai.volume:"
+
+
+@contract("smpl_extract.akai.sat:SegmentAllocationTable.get_segment#tag", abstract=True, assumed=False,
+          note="get_segment is under contract (sector stream over exactly the resolved chain); here the stream is identified by its first sector")
+def _gs_tag(c):
+    c.binds_receiver = True
+    c.param("index", "int")
+    c.returns(("obj", "SegmentToken", {"first_sector": "int"}))
+    c.raises("RequestedInvalidSector", "True")
+    c.raises("InvalidFatDefinition", "True")
+    c.ensures("result.first_sector == index")
+    c.modifies()
+
+
+@contract(_VA + "Volume#new", abstract=True, note="the Volume constructor: keeps name and path")
+def _vol_new(c):
+    c.param("name", "str")
+    c.param("volume_type", "int")
+    c.param("parent", ("drop",))
+    c.param("path", ("list", "str"))
+    c.param("routines", ("drop",))
+    c.returns(("obj", _VA + "Volume", {"name": "str", "path_len": "int", "last_component": "str", "file_entries": "int"}))
+    c.ensures("result.name == name and result.path_len == len(path) and result.last_component == path[len(path) - 1]")
+    c.modifies()
+
+
+@contract("construct:VolumeBodyConstruct.parse_stream#tag", abstract=True, assumed=True,
+          note="parses the volume's file table from the given stream (FileEntriesAdapter._parse is under contract); the table is identified by the stream it was read from")
+def _vb_parse(c):
+    c.param("volume_stream", ("obj", "SegmentToken", {"first_sector": "int"}))
+    c.returns(("rec", "VolumeBodyContainer", {"file_entries": "int"}))
+    c.raises("ConstructError", "True")
+    c.ensures("result.file_entries == volume_stream.first_sector")
+    c.modifies()
+
+
+def _mk_volumes(n):
+    entry = lambda: ("rec", "VolumeEntryContainer", {"name": "str", "type": "int", "start": "int"})
+
+    @contract(_VA + f"VolumesAdapter._decode_element[entries={n}]", source_key=_VA + "VolumesAdapter._decode_element", props=["C01"], proof_only=True)
+    def _vd(c):
+        c.self_obj(("self", _VA + "VolumesAdapter", {"volume_entries": ("clist", [entry() for _ in range(n)]), "sat": ("obj", "SatToken", {}), "subcon": ("drop",)}))
+        c.param("obj", ("drop",))
+        c.param("child_info", ("rec", "ChildInfo", {"parent": ("obj", "ParentToken", {}), "parent_path": ("clist", ["str"]), "routines": ("drop",), "name": ("drop",)}))
+        c.param("context", ("drop",))
+        c.param("path", "str")
+        c.abstract_calls = {"sat.get_segment": "smpl_extract.akai.sat:SegmentAllocationTable.get_segment#tag", "Volume": _VA + "Volume#new",
+                            "VolumeBodyConstruct.parse_stream": "construct:VolumeBodyConstruct.parse_stream#tag", "callable": "builtins:callable#false"}
+        for e in ("RequestedInvalidSector", "InvalidFatDefinition", "ConstructError"):
+            c.raises(e)
+        c.define("active", ["k"], "self.volume_entries[k].type != 0")
+        count = " + ".join(f"ite(active({k}), 1, 0)" for k in range(n))
+        c.ensures(f"len(result) == {count}", "one-volume-per-active-entry")
+        import itertools
+        for k in range(n):
+            # (the position is spelled out per pattern of active / inactive entries in front: no symbolic index into a list of objects)
+            for pat in itertools.product((True, False), repeat=k):
+                cond = " and ".join([f"active({k})"] + [(f"active({j})" if a else f"not active({j})") for j, a in enumerate(pat)])
+                at = sum(1 for a in pat if a)
+                tag = "".join("a" if a else "i" for a in pat) or "first"
+                c.ensures(f"implies({cond}, len(result) > {at} and result[{at}].name == self.volume_entries[{k}].name and result[{at}].file_entries == self.volume_entries[{k}].start "
+                          f"and result[{at}].path_len == 2 and result[{at}].last_component == self.volume_entries[{k}].name)",
+                          f"volume-of-entry-{k}-in-table-order-under-its-name-reading-the-chain-at-its-own-start-sector.{tag}")
+        c.modifies()
+    return _vd
+
+
+@contract("builtins:callable#false", abstract=True, note="callable(x) for already evaluated values: False")
+def _callable_false(c):
+    c.param("x", ("drop",))
+    c.returns(("const", False))
+    c.modifies()
+
+
+for _n in (1, 2, 3):
+    _mk_volumes(_n)
